@@ -186,7 +186,7 @@ fn client_roundtrip(c: &Case) {
     core::mem::forget(got);
 }
 
-/// `format_to_string` of (abc, key, version) is exactly the text in c.hdr (built with encode = false).
+/// `format_to_string` of (abc, key, version) is exactly the text in c.hdr (built with encode = true).
 /// The result lives on the heap: CBMC cannot keep its length concrete, so it is only compared here and the
 /// parse half of the round trip runs on the same text in a stack buffer (Mode::Own).
 fn format_is(c: &Case) {
@@ -212,10 +212,10 @@ fn format_is(c: &Case) {
 enum Mode {
     /// client-encoded header; keys containing '?' are skipped (finding copy_source_qmark)
     Client,
-    /// parse(text of format_to_string(x)); keys containing '?' or '%'+2 hex digits are skipped
-    /// (finding copy_source_format_unencoded)
+    /// parse(text of format_to_string(x)), every key incl. '?' and '%'+2 hex digits (fixed finding
+    /// copy_source_format_unencoded)
     Own,
-    /// format_to_string(x) == unencoded concatenation
+    /// format_to_string(x) == the percent-encoded text a client sends (no leading '/')
     Format,
 }
 
@@ -227,12 +227,12 @@ fn run(u: &[usize], with_version: bool, leading_slash: bool, mode: Mode) {
             client_roundtrip(&c);
         }
         Mode::Own => {
-            let c = build(u, with_version, false, false);
-            assert!(!c.has_qmark && !c.has_pct_hex); // harness: such keys belong to the finding harnesses
+            // the text format_to_string produces (checked by Mode::Format): percent-encoded, no leading '/'
+            let c = build(u, with_version, false, true);
             client_roundtrip(&c);
         }
         Mode::Format => {
-            let c = build(u, with_version, false, false);
+            let c = build(u, with_version, false, true);
             format_is(&c);
         }
     }
@@ -264,7 +264,7 @@ cs!(c14_copy_source_client_utf8, Mode::Client, [([6], false, false), ([0, 6, 1],
 cs!(c14_copy_source_own_plain, Mode::Own, [([0, 1, 0], false, false), ([1, 0, 1], true, false)]); // "a/a", "/a/"
 cs!(c14_copy_source_own_special, Mode::Own, [([4, 5, 6], false, false), ([0, 2, 4], true, false)]); // "= é", "a%="
 
-/// format_to_string(x) is the unencoded concatenation bucket "/" key [ "?versionId=" version ]
+/// format_to_string(x) is the percent-encoded text bucket "/" pct(key) [ "?versionId=" version ]
 /// (keys "a%?" and "é= " , with and without version).
 #[kani::proof]
 #[kani::unwind(40)]
@@ -288,31 +288,30 @@ fn c14_copy_source_finding_qmark_in_key() {
     client_roundtrip(&c);
 }
 
-/// FINDING copy_source_format_unencoded: `format_to_string` writes the key as is (see
-/// c14_copy_source_format_is_plain_concat), `parse` percent-decodes: the key "%aa" comes back as the byte 0xAA
-/// (refused as invalid UTF-8), "%41" would come back as "A", and any key with '?' is cut.  This harness uses the
-/// key "a?a" in the unencoded text "abc/a?a".  Expected to FAIL.
+/// FIXED finding copy_source_format_unencoded (was: `format_to_string` wrote the key as is while `parse`
+/// percent-decodes, so "a?a" came back as "a").  The key "a?a" is now formatted as "abc/a%3Fa" and parsed back.
 #[kani::proof]
 #[kani::unwind(40)]
 #[kani::stub(core::slice::memchr::memchr, crate::stubs::naive_memchr)]
 #[kani::stub(alloc::string::String::from_utf8, crate::c14_copy_source::string_from_utf8_valid_only)]
 fn c14_copy_source_finding_format_unencoded() {
-    let c = build(&[0, 3, 0], false, false, false);
+    let c = build(&[0, 3, 0], false, false, true);
     kani::cover!(true);
+    format_is(&c);
     client_roundtrip(&c);
 }
 
-/// FINDING copy_source_format_unencoded, second witness: the legal key "%41" is formatted as "abc/%41"
-/// (format_to_string does not encode) and parsed back as the key "A".  Expected to FAIL.
+/// FIXED finding copy_source_format_unencoded, second witness: the legal key "%41" is formatted as "abc/%2541"
+/// and parsed back as "%41" (it used to be written as "abc/%41" and read as "A").
 #[kani::proof]
 #[kani::unwind(40)]
 #[kani::stub(core::slice::memchr::memchr, crate::stubs::naive_memchr)]
 #[kani::stub(alloc::string::String::from_utf8, crate::c14_copy_source::string_from_utf8_valid_only)]
 fn c14_copy_source_finding_format_pct() {
-    let mut c = Case { hdr: [0; 48], hlen: 7, raw: [0; 8], rlen: 3, ver: None, has_qmark: false, has_pct_hex: true };
-    let t = b"abc/%41";
+    let mut c = Case { hdr: [0; 48], hlen: 9, raw: [0; 8], rlen: 3, ver: None, has_qmark: false, has_pct_hex: true };
+    let t = b"abc/%2541";
     let mut i = 0;
-    while i < 7 {
+    while i < 9 {
         c.hdr[i] = t[i];
         i += 1;
     }
@@ -320,5 +319,6 @@ fn c14_copy_source_finding_format_pct() {
     c.raw[1] = b'4';
     c.raw[2] = b'1';
     kani::cover!(true);
+    format_is(&c);
     client_roundtrip(&c);
 }
